@@ -18,9 +18,9 @@ ASSUMPTIONS = ["oracle: direct geodesic by Gauss-Legendre quadrature of the exac
                "what the formulae under test compute"]
 
 lat1_s = st.one_of(S.floats(-90, 90), S.floats(-90, 90), S.floats(-90, 90), st.sampled_from([0.0, 90.0, -90.0, 45.0, -45.0, 89.9, -89.9]),
-                   S.floats(-1e-6, 1e-6))
+                   S.floats(-1e-6, 1e-6), S.near([0.0, 90.0, -90.0], -90.0, 90.0, 1e-12, 1.0))
 lon1_s = st.one_of(S.floats(-180, 180), S.floats(-180, 180), st.sampled_from([0.0, 180.0, -180.0, 90.0, -90.0, 179.999999, -179.999999]))
-az_s = st.one_of(S.floats(0, 360), S.floats(0, 360), st.sampled_from([0.0, 90.0, 180.0, 270.0, 360.0, 1e-9, 89.999999999, 90.000000001,
+az_s = st.one_of(S.floats(0, 360), S.floats(0, 360), S.near([0.0, 90.0, 180.0, 270.0, 360.0], 0.0, 360.0, 1e-12, 1.0), st.sampled_from([0.0, 90.0, 180.0, 270.0, 360.0, 1e-9, 89.999999999, 90.000000001,
                                                                      180.000000001, 359.999999999, 45.0]))
 dist_s = st.one_of(S.floats(0.0, 2e7), S.floats(0.0, 2e7), S.log_uniform(1e-3, 2e7), S.log_uniform(1.0, 2e7), S.log_uniform(1e3, 1e6),
                    st.sampled_from([0.0, 1e-3, 1.0, 1e7, 2e7, 10001965.729]))
@@ -107,10 +107,46 @@ def _classes(case):
     return out
 
 
+def enumerate_sweeps(tier, seed, shard, nshards):
+    """Stratified sweeps (see gvp/tmcases.py): the azimuth circle twice (40 000 / 400 000 directions), the start latitude and the
+    distance once each (8 000 / 100 000 points), the remaining arguments fixed per line by the seed."""
+    import random
+    rnd = random.Random(1000003 * int(seed) + 404)
+    big, small = (400000, 100000) if tier == "thorough" else (40000, 8000)
+    base = {"kind": "float", "kinds": None, "num": "float", "defaults": False}
+    i = 0
+    for line in range(4):
+        ell = "grs80" if line == 0 else T_sweep_ell(rnd)
+        lat1, lon1 = rnd.uniform(-85.0, 85.0), rnd.uniform(-180.0, 180.0)
+        az, s = rnd.uniform(0.0, 360.0), rnd.uniform(1e5, 2e7)
+        ph = rnd.random()
+        n = big if line < 2 else small
+        for k in range(n):
+            if i % nshards == shard:
+                f = (k + ph) / n
+                if line < 2:
+                    yield dict(base, lat1=lat1, lon1=lon1, az=360.0 * f, s=s, ell=ell)
+                elif line == 2:
+                    yield dict(base, lat1=-90.0 + 180.0 * f, lon1=lon1, az=az, s=s, ell=ell)
+                else:
+                    yield dict(base, lat1=lat1, lon1=lon1, az=az, s=2e7 * f, ell=ell)
+            i += 1
+
+
+def T_sweep_ell(rnd):
+    if rnd.random() < 0.5:
+        return S.SHIPPED_ELLIPSOIDS[rnd.randrange(4)]
+    return {"a": rnd.uniform(6.3e6, 6.4e6), "invf": rnd.uniform(280.0, 320.0)}
+
+
 SUBCHECKS = [
     SubCheck("direct_vs_exact_geodesic", check_direct, strategy=cases, nontrivial=lambda c: c["s"] > 1.0, classes=_classes,
              quick=3000, thorough=300000, shards_quick=4, shards_thorough=16,
              seq_groups=[["ell"], ["lat1", "lon1"], ["az"], ["s"], ["kind"]],
              fresh=(8, 64, 3), rule="vincdir end point within 1 mm of the quadrature geodesic, reverse azimuth within 1e-8 deg (end point > 1 deg "
                   "from a pole), angle classes == decimal values"),
+    SubCheck("axis_sweeps", check_direct, enumerate=enumerate_sweeps, nontrivial=lambda c: c["s"] > 1.0, classes=_classes,
+             shards_quick=12, shards_thorough=16,
+             rule="stratified sweeps: the azimuth circle (2 lines of 40 000 / 400 000 directions: 0.009 / 0.0009 deg apart), start latitude and "
+                  "distance (8 000 / 100 000 points), other arguments fixed per line by the seed"),
 ]
